@@ -8,6 +8,7 @@ import io
 # 'keyword' interferes with ast.keyword
 import keyword as kwmod
 import re
+import unicodedata
 
 from xonsh.lib.lazyasd import lazyobject
 from xonsh.parsers.ply.lex import LexToken
@@ -147,7 +148,11 @@ def handle_name(state, token):
             pass
         elif token.string in kwmod.kwlist + ["match", "case", "type"]:
             typ = token.string.upper()
-        yield _new_token(typ, token.string, token.start)
+        value = token.string
+        if not value.isascii():
+            # PEP 3131: identifiers are compared in their NFKC form
+            value = unicodedata.normalize("NFKC", value)
+        yield _new_token(typ, value, token.start)
     else:
         if has_whitespace and token.string == "and":
             yield _new_token("AND", token.string, token.start)
